@@ -14,6 +14,8 @@ import (
 	"errors"
 	"fmt"
 	"io"
+	"log"
+	"net"
 	"net/http"
 	"net/http/httptest"
 	"os"
@@ -145,7 +147,7 @@ func (c05FakeCh) PutSetting(ctx context.Context, tp string, name string, value s
 	return nil
 }
 func (c05FakeCh) GetFirst(req string, first ...interface{}) error { return errors.New("not supported") }
-func (c05FakeCh) GetList(req string) ([]string, error)             { return nil, nil }
+func (c05FakeCh) GetList(req string) ([]string, error)            { return nil, nil }
 func (c05FakeCh) Query(ctx context.Context, query string, args ...interface{}) (driver.Rows, error) {
 	return nil, errors.New("not supported")
 }
@@ -153,6 +155,38 @@ func (c05FakeCh) QueryRow(ctx context.Context, query string, args ...interface{}
 	return nil
 }
 func (c05FakeCh) Close() error { return nil }
+
+// what net/http's server logs (it reports a recovered handler panic as "http: panic serving …")
+type c05LogBuf struct {
+	mtx sync.Mutex
+	buf bytes.Buffer
+}
+
+func (l *c05LogBuf) Write(p []byte) (int, error) {
+	l.mtx.Lock()
+	defer l.mtx.Unlock()
+	if l.buf.Len() < 1<<16 {
+		l.buf.Write(p)
+	}
+	return len(p), nil
+}
+func (l *c05LogBuf) reset() {
+	l.mtx.Lock()
+	l.buf.Reset()
+	l.mtx.Unlock()
+}
+func (l *c05LogBuf) panicLine() string {
+	l.mtx.Lock()
+	defer l.mtx.Unlock()
+	for _, line := range strings.Split(l.buf.String(), "\n") {
+		if strings.Contains(line, "panic serving") {
+			return line
+		}
+	}
+	return ""
+}
+
+var c05SrvLog = &c05LogBuf{}
 
 // ---- assembly (mirrors writer/main_dev.go Init + plugin.CreateStaticServiceRegistry, with the fake session)
 func c05Assemble() *httptest.Server {
@@ -192,7 +226,7 @@ func c05Assemble() *httptest.Server {
 	apirouterv1.RouteInsertTempoApis(router, tempoCfg)
 	apirouterv1.RouteProfileDataApis(router, cfg)
 	srv := httptest.NewUnstartedServer(router)
-	srv.Config.ErrorLog = nil
+	srv.Config.ErrorLog = log.New(c05SrvLog, "", 0)
 	srv.Start()
 	return srv
 }
@@ -208,9 +242,13 @@ func c05Settle(baseline int, maxWait time.Duration) int {
 }
 
 func c05ChildMain() {
+	// the decoders print diagnostics with fmt.Println: keep the protocol pipe for ourselves
+	protoOut := os.Stdout
+	if devnull, err := os.OpenFile(os.DevNull, os.O_WRONLY, 0); err == nil {
+		os.Stdout = devnull
+	}
 	srv := c05Assemble()
-	client := &http.Client{Transport: &http.Transport{DisableKeepAlives: true, DisableCompression: true}}
-	out := bufio.NewWriter(os.Stdout)
+	out := bufio.NewWriter(protoOut)
 	emit := func(a c05Ans) {
 		b, _ := json.Marshal(a)
 		out.Write(b)
@@ -267,29 +305,44 @@ func c05ChildMain() {
 			if dl <= 0 {
 				dl = 5 * time.Second
 			}
-			ctx, cancel := context.WithTimeout(context.Background(), dl)
 			t0 := time.Now()
-			resp, err := client.Do(req.WithContext(ctx))
 			a := c05Ans{ID: c.ID}
+			c05SrvLog.reset()
+			// Raw connection: the request is written while the response is read, so that a server answering
+			// before it has consumed a large body (and closing) still yields its status.
+			conn, err := net.DialTimeout("tcp", srv.Listener.Addr().String(), dl)
 			if err != nil {
-				if ctx.Err() != nil {
+				emit(c05Ans{ID: c.ID, Err: "dial: " + err.Error()})
+				continue
+			}
+			conn.SetDeadline(t0.Add(dl))
+			req.Close = true
+			go func() { req.Write(conn) }()
+			resp, err := http.ReadResponse(bufio.NewReader(conn), req)
+			if err != nil {
+				var ne net.Error
+				if errors.As(err, &ne) && ne.Timeout() {
 					a.Timeout = true
 				} else {
 					a.Aborted = true
 				}
 				a.Err = err.Error()
+				if pl := c05SrvLog.panicLine(); pl != "" {
+					a.Err += "; " + pl
+				}
 			} else {
 				// the body must also arrive within the deadline
 				_, rerr := io.Copy(io.Discard, resp.Body)
 				resp.Body.Close()
 				a.Status = resp.StatusCode
-				if rerr != nil && ctx.Err() != nil {
+				var ne net.Error
+				if rerr != nil && errors.As(rerr, &ne) && ne.Timeout() {
 					a.Timeout = true
 					a.Err = rerr.Error()
 				}
 			}
+			conn.Close()
 			a.ElapsedMs = int(time.Since(t0) / time.Millisecond)
-			cancel()
 			emit(a)
 		}
 	}
